@@ -8,18 +8,33 @@ MANIFEST = dict(
          'lawful total order whose zero set is key equality; the red-black trees of type_factory refine one duplicate-free key table; '
          'two type-constructor requests are answered with the same node iff their documented normal forms are equal (omitted throws = '
          'false, natural C++ transfer by value = omitted, Warehouse = sequence, qualified-over-qualified merged), whatever was built in '
-         'between; nodes of different constructors never coincide. The model is tied to the code by a differential run of a real '
-         'impl::Lexicon against the model driver and against an independent specification oracle (one node per normal form).',
+         'between; nodes of different constructors never coincide; in a process holding several Lexicons (requests interleaved in any way, '
+         'Lexicons destroyed and replaced by fresh ones at any time) every Lexicon answers exactly what its own history alone produces '
+         '(C01_lexicons_independent, C01_unified_in_process). The model is tied to the code by a differential run of real impl::Lexicons '
+         'against the model driver and against an independent specification oracle (one node per normal form): up to four Lexicons alive in '
+         'one process with their histories interleaved in chunks of 1..233 lines (two of the histories asked of two Lexicons each, in lockstep), Lexicons '
+         'constructed in place of destroyed ones with the node storage recycled, client-built operand nodes placed by mmap 128 B .. 256 GiB '
+         'apart (exact multiples of 4 GiB and 64 GiB included), and a Lexicon used during static initialisation of a client unit linked '
+         'before the library and asked again in main().',
     note='Lean kernel; axioms propext/Classical.choice/Quot.sound; hand-written model (IprModel/Unify.lean) tied by correspondence on '
-         'generated histories only; string_pool represented by its specification (C03); harness unifyprobe.cxx, ASan/UBSan, g++.',
+         'generated histories only (the several-Lexicon, placed-address and static-initialisation behaviour of the C++ is observed on the '
+         'generated scripts, not proved); answers of one Lexicon are compared with its own specification after de-interleaving, a node '
+         'answered to two live Lexicons must be a process-wide constant; string_pool represented by its specification (C03); if mmap '
+         'refuses the address hints the placed operands fall back to the free store (reported in the evidence); harness unifyprobe.cxx '
+         '(own operator new: malloc, or recycled size classes for in-place Lexicons), ASan/UBSan, g++, GNU ld link order.',
     technique='Lean 4 theorems (invariants over request histories, refinement of red-black trees to a key table) + differential correspondence',
     ref='§4 C01')
 
-RULE = ('4 (quick) / 16 (thorough) histories of 3 000 / 100 000 requests on a fresh impl::Lexicon each: operands drawn from built-ins, '
-        'user-defined types and every earlier answer; ~45 % of requests ask again for an earlier key, half of those through an alternative '
+RULE = ('one probe process per run. 4 (quick) / 16 (thorough) histories of 3 000 / 100 000 requests, each on its own impl::Lexicon, three Lexicons '
+        'alive at a time and their histories interleaved in chunks of random size (1..233 lines; histories 0 and 2 are also asked of a second Lexicon in '
+        'lockstep); then 5 / 10 pairs of short histories in one place: a Lexicon that is asked every constructor once more and destroyed, and a '
+        'successor constructed in place (node storage recycled) whose first requests use more brand-new operands than the predecessor had nodes; '
+        'histories 0 and 2 begin with client-built type nodes placed 128 B .. 256 GiB apart as operands of every unary / binary constructor, each '
+        'request twice in scrambled orders; before main() a namespace-scope object asks a Lexicon for every candidate reserved spelling and a few '
+        'types, main() asks again. Operands drawn from built-ins, user-defined types and every earlier answer; ~45 % of requests ask again for an earlier key, half of those through an alternative '
         'spelling (explicit false throws, natural transfer obtained four ways, Warehouse vs sequence, word vs String, split qualifier sets); '
         'type sequences of length 0..6 sharing prefixes; all 7 qualifier sets; accessors read back after 12 % of requests. '
-        'A trace is one history; every answer is compared with the specification oracle and with the Lean model')
+        'A trace is one history (one Lexicon incarnation); every answer is compared with the specification oracle of its own history and with the Lean model run on the same interleaved script')
 
 
 def run(tier):
